@@ -57,6 +57,16 @@ def changed_new_lines(before: str, after: str) -> set[int]:
     return out
 
 
+def changed_old_lines(before: str, after: str) -> set[int]:
+    """1-based lines of `before` that the run replaced or deleted (an insertion counts for the line it is put in front of)"""
+    a, b = before.splitlines(keepends=True), after.splitlines(keepends=True)
+    out = set()
+    for tag, i1, i2, j1, j2 in difflib.SequenceMatcher(None, a, b, autojunk=False).get_opcodes():
+        if tag in ("replace", "delete"):
+            out.update(range(i1 + 1, i2 + 1))
+    return out
+
+
 def shadowed(text: str) -> bool:
     """a well-known module name is re-bound to something else (`import whatever as yaml`, `yaml = ...`): the rule matches by
     spelling, the codemod resolves the name and declines"""
@@ -191,6 +201,16 @@ def search(ctx):
                 ctx.fail({"kind": "flagged-not-handled", "codemod": cid}, f"{cid}: its own rule reports {rec['flagged0']} but the file is neither rewritten nor failed (variant {name})",
                          {"codemod": cid, "program": name, "before": rec["before"], "flagged": rec["flagged0"]})
                 continue
+            if changed and not rec["failed"] and not declined(cid, rec["before"]) and not shadowed(rec["before"]):
+                # "rewritten at that location": every reported location has a line the run replaced
+                old_lines = changed_old_lines(rec["before"], rec["after"])
+                untouched = [f for f in rec["flagged0"] if not any(l in old_lines for l in range(f[0], f[1] + 1))]
+                if untouched:
+                    line = rec["before"].splitlines()[untouched[0][0] - 1] if untouched[0][0] <= len(rec["before"].splitlines()) else ""
+                    shape = "non-ascii-before-site" if not line.isascii() else callshapes.shape_class(name)
+                    ctx.fail({"kind": "flagged-location-not-rewritten", "codemod": cid, "shape": shape},
+                             f"{cid}: its rule reports {untouched} but the run, which rewrote other lines of the file, left those as they are (variant {name})",
+                             {"codemod": cid, "program": name, "before": rec["before"], "after": rec["after"], "flagged": rec["flagged0"]})
             if changed:
                 new_lines = changed_new_lines(rec["before"], rec["after"])
                 still = [f for f in rec["flagged1"] if any(l in new_lines for l in range(f[0], f[1] + 1))]
